@@ -196,6 +196,10 @@ mnemo_mem_only = ['sgdt', 'sidt', 'lgdt', 'lidt', 'invlpg', 'cmpxchg8b',
                   'prefetchw', 'ldmxcsr', 'stmxcsr',
                   'lea', 'lds', 'les', 'lss', 'lfs', 'lgs', 'bound',
                   ]
+# instructions whose ModRM operand, when it is in memory, is 16 bits wide
+# whatever the operand size (selectors, the machine status word); the
+# moves from/to a segment register are of that kind too
+mnemo_mem16 = ['sldt', 'str', 'smsw', 'lar', 'lsl']
 mnemo_prefetch = ['prefetcht0', 'prefetcht1', 'prefetcht2', 'prefetchnta', 'prefetchw', 'cmpxchg8b']
 mnemo_sse_cmp_predicate = ['eq','lt','le','unord','neq','nlt','nle','ord']
 mnemo_sse_cmp = ['cmp'+predicate+suffix
@@ -2548,6 +2552,8 @@ class x86_mn(x86_mn_base):
                 if m.modifs[wd]:
                     #XXX check (for fnst??)=
                     mnemo_args[-1][x86_afs.size] = x86_afs.u16
+                if m.name in mnemo_mem16 and modr[x86_afs.ad]:
+                    mnemo_args[-1][x86_afs.size] = x86_afs.u16
                 if rmr in dibs and not x86_afs.imm in modr and modr[x86_afs.ad] == False:
                     log.info("No register should be encoded here")
                     return None
@@ -2696,6 +2702,9 @@ class x86_mn(x86_mn_base):
                         mafs[x86_afs.size] = self.opmode
                     if m.modifs[sg]:
                         mafs[x86_afs.size] = x86_afs.size_seg
+                    if modr[x86_afs.ad] and \
+                            (m.modifs[sg] or m.name in mnemo_mem16):
+                        modr[x86_afs.size] = x86_afs.u16
                     if modr[x86_afs.ad]:
                         # For ModRM, the size of memory may not be the same
                         # as the size of the register
@@ -3153,6 +3162,14 @@ class x86_mn(x86_mn_base):
         #test for 16/32 bit mode
         if can_be_16_32:
             self.mnemo_mode = None
+            if name in mnemo_mem16 or [a for a in args_eval
+                    if [k for k in a if type(k) == int and k & mask_drcrsg[sg]]]:
+                # the memory operand is 16 bits wide whatever the operand
+                # size: it does not select the 16-bit mode
+                for a in args_eval:
+                    if is_address(a) and a[x86_afs.size] == u16:
+                        a[x86_afs.size] = u32
+                        a[x86_afs.ad] = u32
             for a in args_eval:
                 if [k for k in a if type(k) == int and k >= 0x100]:
                     # segment, control and debug registers do not decide
